@@ -1,24 +1,24 @@
 #!/bin/sh
 # usage: tools/seed_sandbox.sh <out file> <seed dirs...>
-# Runs every quick check against every seed in an ISOLATED copy (/tmp/sr/verif + /tmp/sr/repo worktree),
+# Runs every quick check against every seed in an ISOLATED copy (${SR:-/tmp/sr}/verif + ${SR:-/tmp/sr}/repo worktree),
 # so that work in /verif and /repo can continue meanwhile.
 OUT=$1; shift
-rm -rf /tmp/sr/verif; mkdir -p /tmp/sr
-git -C /repo worktree remove --force /tmp/sr/repo 2>/dev/null
-git -C /repo worktree add -q --detach /tmp/sr/repo HEAD || exit 2
-rsync -a --exclude replays --exclude .git /verif/ /tmp/sr/verif/
-cd /tmp/sr/verif
+rm -rf ${SR:-/tmp/sr}/verif; mkdir -p ${SR:-/tmp/sr}
+git -C /repo worktree remove --force ${SR:-/tmp/sr}/repo 2>/dev/null
+git -C /repo worktree add -q --detach ${SR:-/tmp/sr}/repo HEAD || exit 2
+rsync -a --exclude replays --exclude .git /verif/ ${SR:-/tmp/sr}/verif/
+cd ${SR:-/tmp/sr}/verif
 PROPS=${PROPS:-$(python3 -c "import json;print(' '.join(c['property_id'] for c in json.load(open('MANIFEST.json'))['checks']))")}
 : > $OUT
 for d in "$@"; do
   name=$(basename $d)
   echo "=== $name" >> $OUT
-  git -C /tmp/sr/repo apply $d/patch.diff || { echo "apply failed" >> $OUT; continue; }
+  git -C ${SR:-/tmp/sr}/repo apply $d/patch.diff || { echo "apply failed" >> $OUT; continue; }
   for p in $PROPS; do
-    out=$(PYTHONPATH=/tmp/sr/repo ./check $p 2>&1); rc=$?
+    out=$(PYTHONPATH=${SR:-/tmp/sr}/repo ./check $p 2>&1); rc=$?
     echo "$name $p rc=$rc $(echo "$out" | grep -E 'VIOLATION' | head -1 | sed 's/replay=[^ ]*//')" >> $OUT
   done
-  git -C /tmp/sr/repo checkout -- .
+  git -C ${SR:-/tmp/sr}/repo checkout -- .
 done
-git -C /repo worktree remove --force /tmp/sr/repo
+git -C /repo worktree remove --force ${SR:-/tmp/sr}/repo
 echo DONE >> $OUT
